@@ -1,0 +1,32 @@
+//go:build verif
+
+package hopserver
+
+import (
+	"net"
+	"os"
+
+	"github.com/sirupsen/logrus"
+
+	"hop.computer/hop/authgrants"
+	"hop.computer/hop/certs"
+	"hop.computer/hop/transport"
+	"hop.computer/hop/tubes"
+)
+
+// VerifCheckAuthorization runs hopSession.checkAuthorization for a session whose tubes run over
+// msgConn and whose transport handle reports leaf as the authenticated client certificate. It
+// returns the method's result and what it left in the session. For the verification harness only.
+func (s *HopServer) VerifCheckAuthorization(msgConn transport.MsgConn, leaf *certs.Certificate) (ok bool, user string, usingAuthGrant bool, actions []authgrants.Authgrant) {
+	cfg := tubes.Config{Timeout: s.config.DataTimeout, Log: logrus.WithField("muxer", "verif")}
+	sess := &hopSession{
+		transportConn:   transport.VerifHandleWithClientLeaf(leaf),
+		tubeMuxer:       tubes.Server(msgConn, &cfg),
+		controlChannels: []net.Conn{},
+		server:          s,
+		pty:             make(chan *os.File, 1),
+	}
+	ok = sess.checkAuthorization()
+	go sess.tubeMuxer.Stop()
+	return ok, sess.user, sess.usingAuthGrant, sess.authorizedActions
+}
